@@ -59,6 +59,13 @@ Definition mod_tag_timestamp (t : tag) (ts : N) : tag :=
 (* FlvFileWriter: WriteFlvHeader then WriteTag(tag.Raw) / WriteRaw *)
 Definition flv_file (tags : list bytes) : bytes := flv_header ++ concat tags.
 
+(* the recording as a file: Open is os.Create, which truncates whatever a file of that name held (a stream
+   re-published within the same second reuses the name <stream>-<unix sec>.flv); every write appends *)
+Definition fw_open (old : bytes) : bytes := [].
+Definition fw_write (f b : bytes) : bytes := f ++ b.
+Definition flv_record (old : bytes) (tags : list bytes) : bytes :=
+  fold_left fw_write tags (fw_write (fw_open old) flv_header).
+
 (* FlvFileReader: lazily skip the 13-byte header (Read on a short file returns
    what is there), then ReadTag until error. *)
 Fixpoint read_tags (fuel : nat) (l : bytes) : list tag :=
